@@ -59,6 +59,31 @@ class KVBench:
         except (ValidationError, StorageError, ValueError, TypeError):
             return None
 
+    def ask_req(self, fdicts, default_limit=None):
+        """a REQ with several filters (at most five are planned): the real planner over the whole list; returns
+        [(filter dict, ids the plan made for it delivers, ids the same filter delivers when asked alone)] for the
+        filters that are answered at all, or None when a filter is refused"""
+        impl = self.impl
+        qs = [self.validate(f) for f in fdicts]
+        if any(q is None for q in qs):
+            return None
+        alone = []
+        for f in fdicts:
+            r = self.ask(f, default_limit=default_limit)
+            alone.append(None if r is None or r.get("ids") is None else r)
+        try:
+            plans = list(impl.kv.planner([q.model_copy(deep=True) for q in qs], default_limit=default_limit))
+        except Exception as e:
+            self.report.property_failure("planner raised %r on a multi-filter REQ" % (e,), {"filters": fdicts}, None)
+            return None
+        want = [(f, r) for f, r in zip(fdicts, alone) if r is not None]
+        if len(plans) != len(want):
+            self.report.property_failure(
+                "kv: a REQ of %d filters, %d of which are answered when asked alone, got %d plans"
+                % (len(fdicts), len(want), len(plans)), {"backend": "kv", "filters": fdicts, "events": self.events}, None)
+            return None
+        return [(f, impl.execute(p), r) for (f, r), p in zip(want, plans)]
+
     def ask(self, fdict, default_limit=None):
         """returns None when the filter is rejected or yields no plan; else a dict"""
         q = self.validate(fdict)
